@@ -710,6 +710,200 @@ def check_nested_mutation(case, ev=None, scratch=None):
             scratch.clean()
 
 
+# ---- classes of an accepted module that inherit their constructor from a built-in type -------------------------------------
+BSUB_SRC = """import dds
+import vlog
+
+
+class {cls}({base}):
+    pass
+
+
+BIAS = {bias}
+
+
+def h(x):
+    vlog.rec('h')
+{use}
+    return ('h', x + BIAS)
+
+
+def f():
+    vlog.rec('f')
+    return dds.keep('/bs/out', h, {x})
+"""
+BSUB_USES = {
+    "raise": "    if x < 0:\n        raise {cls}('negative input')",
+    "construct": "    box = {cls}()\n    x = x + len(box)",
+    "except": "    try:\n        x = x + 0\n    except {cls}:\n        x = 0",
+}
+BSUB_BASES = {"raise": ["Exception", "ValueError", "KeyError", "RuntimeError"], "construct": ["dict", "list", "set"], "except": ["Exception", "LookupError"]}
+
+
+def bsub_strategy():
+    from hypothesis import strategies as st
+
+    def mk(use):
+        return st.fixed_dictionaries({"bsub": st.just(use), "base": st.sampled_from(BSUB_BASES[use]), "cls": st.sampled_from(["PipelineError", "Box", "Err"]),
+                                      "store": st.sampled_from([["memory", None], ["local", None], ["local-lru", 2]]),
+                                      "steps": st.lists(st.sampled_from(["bias", "neg", "pos", "none"]), min_size=1, max_size=4)})
+
+    return st.sampled_from(sorted(BSUB_USES)).flatmap(mk)
+
+
+def check_builtin_subclass(case, ev=None, scratch=None):
+    """The accepted module defines a class that takes its constructor from a built-in type (a user-defined exception, a dict / list
+    subclass) and the kept function raises, constructs or catches it: the evaluation must behave like plain execution (value, or
+    the user's own exception), also after edits of a tracked variable / of the literal argument."""
+    from ..harness import proc
+    import os
+
+    own = scratch is None
+    scratch = scratch or common.Scratch("vf-c01")
+    root_dir, store_dir = scratch.sub(), scratch.sub()
+    bias, x = 1, 3
+    mt = [1600000000]
+    tag = f"[class derived from built-in {case['base']} used by the kept function ({case['bsub']}) / {case['store'][0]}]"
+
+    def files():
+        use = BSUB_USES[case["bsub"]].format(cls=case["cls"])
+        return {"pk/__init__.py": "", "pk/m0.py": BSUB_SRC.format(cls=case["cls"], base=case["base"], bias=bias, use=use, x=x)}
+
+    for rel, content in files().items():
+        pth = os.path.join(root_dir, rel)
+        os.makedirs(os.path.dirname(pth), exist_ok=True)
+        open(pth, "w").write(content)
+        os.utime(pth, (mt[0], mt[0]))
+    w = proc.Worker()
+    try:
+        w.call("init", root=root_dir, accepted=["pk"], store={"kind": case["store"][0], "dir": store_dir, "cache": case["store"][1]})
+        for si, stp in enumerate(["none"] + case["steps"]):
+            if stp == "bias":
+                bias += 1
+            elif stp == "neg":
+                x = -abs(x) - 1
+            elif stp == "pos":
+                x = abs(x) + 1
+            if stp != "none":
+                mt[0] += 10
+                w.call("write_files", files=files(), reload=True, mtime=mt[0])
+            r = w.call("eval", module="pk.m0", func="f", style="direct")
+            raises = case["bsub"] == "raise" and x < 0
+            if raises:
+                if r["exc"] is None or r["exc"]["type"] != case["cls"]:
+                    got = r["exc"] and (r["exc"]["type"], r["exc"]["msg"][:200])
+                    raise Violation(f"{tag} step {si}: plain execution raises {case['cls']} but the evaluation gave value={r.get('value')!r} exc={got}", case)
+            else:
+                if r["exc"] is not None:
+                    raise Violation(f"{tag} step {si}: evaluation raised {r['exc']['type']}: {r['exc']['msg'][:200]}", case)
+                if r["value"] != ("h", x + bias):
+                    raise Violation(f"{tag} step {si}: returned {r['value']!r} but plain execution gives {('h', x + bias)!r}; steps={case['steps']}", case)
+        if ev is not None:
+            ev.case(case, any(s != "none" for s in case["steps"]), features=["class-derived-from-builtin", "bsub:" + case["bsub"], "base:" + case["base"]])
+    finally:
+        w.close()
+        if own:
+            scratch.clean()
+
+
+# ---- names bound in an inner scope (lambda / nested function) that are spelled like a tracked module variable --------------
+ISC_SRC = """import dds
+import vlog
+
+RATE = {rate}
+
+
+def h():
+    vlog.rec('h')
+{body}
+
+
+def f():
+    vlog.rec('f')
+    return dds.keep('/isc/out', h)
+"""
+# shape -> (body, value as a function of RATE, binds the name by assignment inside a nested function)
+ISC_SHAPES = {
+    "lambda_default": ("    sc = lambda v, RATE=RATE: v * RATE\n    return ('h', sc(2))", lambda r: 2 * r, False),
+    "lambda_param": ("    sc = lambda RATE: RATE + 1\n    return ('h', sc(1) + RATE)", lambda r: 2 + r, False),
+    "inner_def_param": ("    def add(v, RATE):\n        return v + RATE\n    return ('h', add(1, 5) + RATE)", lambda r: 6 + r, False),
+    "inner_def_default": ("    def add(v, RATE=RATE):\n        return v + RATE\n    return ('h', add(1))", lambda r: 1 + r, False),
+    "inner_def_kwonly": ("    def add(v, *, RATE=0):\n        return v + RATE\n    return ('h', add(1, RATE=2) + RATE)", lambda r: 3 + r, False),
+    "inner_def_local": ("    def inner():\n        RATE = 5\n        return RATE\n    return ('h', inner() + RATE)", lambda r: 5 + r, True),
+    "inner_def_for": ("    def inner():\n        t = 0\n        for RATE in (1, 2):\n            t += RATE\n        return t\n    return ('h', inner() + RATE)", lambda r: 3 + r, True),
+}
+ISC_OPEN = "nested-function-assigns-module-variable-name"
+
+
+def isc_strategy(exclude=()):
+    from hypothesis import strategies as st
+
+    shapes = sorted(k for k, v in ISC_SHAPES.items() if not (v[2] and ISC_OPEN in exclude))
+    return st.fixed_dictionaries({"isc": st.sampled_from(shapes), "store": st.sampled_from([["memory", None], ["local", None], ["local-lru", 2]]),
+                                  "steps": st.lists(st.tuples(st.sampled_from(["rate", "rate", "none", "back"]), st.booleans()).map(list), min_size=1, max_size=4)})
+
+
+def check_inner_scope(case, ev=None, scratch=None):
+    """The kept function binds, in an inner scope only (parameter of a lambda / of a nested function, with or without a default
+    that reads the module variable), a name that is also a tracked module variable which the function reads: the variable stays a
+    dependency - after its value changes (in this process or before a fresh one) the evaluation gives the new plain result."""
+    from ..harness import proc
+    import os
+
+    own = scratch is None
+    scratch = scratch or common.Scratch("vf-c01")
+    root_dir, store_dir = scratch.sub(), scratch.sub()
+    body, val, nested_assign = ISC_SHAPES[case["isc"]]
+    feature = ISC_OPEN if nested_assign else None
+    rate, mt = 2, [1600000000]
+    tag = f"[name bound in an inner scope and spelled like a tracked variable: {case['isc']} / {case['store'][0]}]"
+    steps = case["steps"] if case["store"][0] != "memory" else [[e, True] for e, _ in case["steps"]]
+
+    def files():
+        return {"pk/__init__.py": "", "pk/m0.py": ISC_SRC.format(rate=rate, body=body)}
+
+    def write():
+        for rel, content in files().items():
+            pth = os.path.join(root_dir, rel)
+            os.makedirs(os.path.dirname(pth), exist_ok=True)
+            open(pth, "w").write(content)
+            os.utime(pth, (mt[0], mt[0]))
+
+    write()
+    w = [proc.Worker()]
+
+    def init():
+        w[0].call("init", root=root_dir, accepted=["pk"], store={"kind": case["store"][0], "dir": store_dir, "cache": case["store"][1]})
+
+    try:
+        init()
+        for si, (stp, inproc) in enumerate([["none", True]] + steps):
+            if stp == "rate":
+                rate += 1
+            elif stp == "back":
+                rate = 2
+            if stp != "none":
+                mt[0] += 10
+                if inproc:
+                    w[0].call("write_files", files=files(), reload=True, mtime=mt[0])
+                else:
+                    write()
+                    w[0].close()
+                    w[0] = proc.Worker()
+                    init()
+            r = w[0].call("eval", module="pk.m0", func="f", style="direct")
+            if r["exc"] is not None:
+                raise Violation(f"{tag} step {si}: evaluation raised {r['exc']['type']}: {r['exc']['msg'][:200]}", case, feature)
+            if r["value"] != ("h", val(rate)):
+                raise Violation(f"{tag} step {si}: returned {r['value']!r} but plain execution gives {('h', val(rate))!r} (RATE = {rate}); steps={case['steps']}", case, feature)
+        if ev is not None:
+            ev.case(case, any(s != "none" for s, _ in case["steps"]), features=["inner-scope-binding", "isc:" + case["isc"]])
+    finally:
+        w[0].close()
+        if own:
+            scratch.clean()
+
+
 def gen_opts():
     return {"exclude": common.open_features(ID), "loads": False, "nested_args": True}
 
@@ -734,6 +928,10 @@ def shard(idx, n, tier, seed, count):
             v = common.hyp_drive(nested_strategy(), lambda c: check_nested_mutation(c, ev, scratch), seed * 1000 + 190 + idx, max(3, count // 8), ev)
         if v is None and idx % 4 == 2:
             v = common.hyp_drive(locmod_strategy(), lambda c: check_local_module_import(c, ev, scratch), seed * 1000 + 170 + idx, max(3, count // 8), ev)
+        if v is None and idx % 4 == 1:
+            v = common.hyp_drive(isc_strategy(opts["exclude"]), lambda c: check_inner_scope(c, ev, scratch), seed * 1000 + 110 + idx, max(3, count // 8), ev)
+        if v is None and idx % 4 == 3:
+            v = common.hyp_drive(bsub_strategy(), lambda c: check_builtin_subclass(c, ev, scratch), seed * 1000 + 130 + idx, max(3, count // 8), ev)
         if v is None and idx % 4 == 0:
             v = common.hyp_drive(dup_strategy(), lambda c: check_duplicate_path(c, ev, scratch), seed * 1000 + 150 + idx, max(3, count // 8), ev)
     finally:
@@ -751,6 +949,10 @@ def run(tier, seed, scale=1.0):
 def replay(case):
     if "nested" in case:
         return check_nested_mutation(case)
+    if "bsub" in case:
+        return check_builtin_subclass(case)
+    if "isc" in case:
+        return check_inner_scope(case)
     if "locmod" in case:
         return check_local_module_import(case)
     if "dup" in case:
